@@ -29,12 +29,35 @@ def cases(tier, seed):
     for L in range(1, n1 + 1):
         for bits in range(2 ** L - 1):
             yield ["1d", L, bits]
+    # longer 1D masks (not exhaustive: a menu of patterns per length; sorting / hashing shortcuts only misbehave beyond ~16 elements)
+    for L in (17, 18, 23, 32, 33, 47, 64, 100):
+        full = (1 << L) - 1
+        pats = [0x5555555555555555555555555 & full, 0xAAAAAAAAAAAAAAAAAAAAAAAAA & full, (full >> (L // 2)), (full << (L // 2)) & full,
+                0x3C3C3C3C3C3C3C3C3C3C3C3C3 & full, 1, 1 << (L - 1), (1 << (L // 3)) | (1 << (2 * L // 3))]
+        r = dom.rng(seed, "c01-long-1d", L)
+        pats += [int(r.randint(0, 2 ** 30)) * (2 ** 30) % full | int(r.randint(0, 2 ** 30)) for _ in range(4)]
+        for bits in pats:
+            if 0 <= bits < full:
+                yield ["1d", L, int(bits)]
+    # larger, sparse 2D masks (menu): tables built through hashing / sorting only go wrong beyond small index ranges
+    for (h, w) in ((6, 7), (9, 5), (8, 8), (5, 13), (12, 11)):
+        r = dom.rng(seed, "c01-large-2d", h, w)
+        for k in range(6):
+            keep = r.uniform(size=h * w) < (0.08 + 0.15 * k)  # fraction unmasked
+            if not keep.any():
+                keep[r.randint(h * w)] = True
+            bits = 0
+            for q in range(h * w):
+                if not keep[q]:
+                    bits |= 1 << q
+            yield ["2d", h, w, int(bits)]
     extra = []
     for (h, w, bits) in dom.all_mask_cases(n2, extra_shapes=extra):
         yield ["2d", h, w, bits]
 
 
 def labellings(n, salt):
+    salt = int(salt) % 1000003
     idx = np.arange(n, dtype=float)
     sign = np.where((np.arange(n) * 7 + salt) % 3 == 0, -1.0, 1.0)
     inj = sign * (1.0 + idx)
